@@ -104,7 +104,7 @@ def run_writer(ctx, q, name, shape, formatter=None):
         if len(params) < 3:
             raise AnchorError(f"{q}: formatter parameter")
         env[params[2]] = Opaque("name:" + formatter, ())
-    eng = Engine(ctx, BULK, fn, cond=_field_cond, env=env, post=_text_post)
+    eng = Engine(ctx, BULK, fn, cond=_field_cond, env=env, post=_text_post, strict_locals=True)
     allv = eng.run()
     leaves = [lf for lf in allv if lf.kind in ("fall", "return")]      # paths that raise write no card
     crash = [lf for lf in allv if lf.kind == "raise" and isinstance(lf.value, Lit) and not lf.state.facts]
@@ -233,7 +233,7 @@ def run_reader(ctx, q, lines, n, conchar, fixed=True):
                 return Lit(c)
         return v
 
-    eng = Engine(ctx, BULK, fn, cond=cond, call=call, env=env, post=post)
+    eng = Engine(ctx, BULK, fn, cond=cond, call=call, env=env, post=post, strict_locals=True)
     leaves = eng.run()
     rets = [lf for lf in leaves if lf.kind == "return"]
     crash = [lf for lf in leaves if lf.kind == "raise" and isinstance(lf.value, Lit) and not lf.state.facts]
